@@ -251,7 +251,8 @@ def run(res, tier, seed):
     finally:
         shutil.rmtree(wd, ignore_errors=True)
 
-    v = K.run_cases("Trace_C06R", cases, {"Kind": "hg"}, procs=12)
+    # CaseRunner re-reads the case file at every step (cost quadratic in the batch length): keep batches short
+    v = K.run_cases("Trace_C06R", cases, {"Kind": "hg"}, procs=12, per_batch=min(250, max(10, len(cases) // 12 + 1)))
     for idx, failed in v["rejects"]:
         c, more = cases[idx], info[idx]
         if "hgr_file_is_valid_and_covered" in failed or "hif_document_is_covered" in failed:
